@@ -552,6 +552,73 @@ def execHashKey (env : Env) (a : Val) : Res Val :=
   | .atom .key s => .ok (.atom .keyHash (env.hashes.hashKey s))
   | _ => .stuck
 
+/-! Phase C: address texts as Python handles them -/
+/-- `value.partition('%')`: the text before the first `%` and the text after it -/
+def pyPartition (s : List Nat) : List Nat × List Nat := (s.takeWhile (· != 37), (s.dropWhile (· != 37)).drop 1)
+
+/-- `AddressType.from_value(value)` (also `ContractType.from_value`): `address, _, entrypoint = value.partition('%')`,
+`if entrypoint == 'default': value = address` (`assert is_address(value)` concerns the opaque base58 part) -/
+def addrFromValue (s : List Nat) : List Nat := if (pyPartition s).2 = defaultEp then (pyPartition s).1 else s
+
+/-- `AddressType._split()`: `address, _, entrypoint = self.value.partition('%')`; `return address, entrypoint or 'default'` -/
+def pySplit (s : List Nat) : List Nat × List Nat :=
+  ((pyPartition s).1, if (pyPartition s).2 = [] then defaultEp else (pyPartition s).2)
+
+/-- `is_pkh(address)`: a `tz…` text (the base58 check itself concerns the opaque part) -/
+def isPkh (a : List Nat) : Bool := a.take 2 == [116, 122]
+
+/-- ADDRESS after `pop1`: `contract.assert_type_in(ContractType)`, `AddressType.from_value(str(contract))` -/
+def execAddress (a : Val) : Res Val :=
+  match a with
+  | .contract _ s => .ok (.atom .address (addrFromValue s))
+  | _ => .stuck
+
+/-- IMPLICIT_ACCOUNT after `pop1`: `key_hash.assert_type_equal(KeyHashType)`,
+`ContractType.create_type(args=[UnitType]).from_value(str(key_hash))` -/
+def execImplicitAccount (a : Val) : Res Val :=
+  match a with
+  | .atom .keyHash s => .ok (.contract .unit (addrFromValue s))
+  | _ => .stuck
+
+/-- `CONTRACT %entrypoint t` after `pop1` (no node: `get_entrypoint_type` answers `None` for an originated address —
+"skip type checking"): `contract_address, address_entrypoint = address._split()`; inside the `try`: `assert 'default' in
+(address_entrypoint, entrypoint)`, `if entrypoint == 'default': entrypoint = address_entrypoint`, `if
+is_pkh(contract_address): assert entrypoint == 'default'; UnitType.assert_type_equal(t)`,
+`OptionType.from_some(contract_type.from_value(f'{contract_address}%{entrypoint}'))`; a failed assertion gives
+`OptionType.none(contract_type)` -/
+def execContract (t : Ty) (entrypoint : List Nat) (a : Val) : Res Val :=
+  match a with
+  | .atom .address s =>
+    let contractAddress := (pySplit s).1
+    let addressEntrypoint := (pySplit s).2
+    if addressEntrypoint ≠ defaultEp ∧ entrypoint ≠ defaultEp then .ok (.none (.contract t))
+    else
+      let ep := if entrypoint = defaultEp then addressEntrypoint else entrypoint
+      if isPkh contractAddress ∧ ¬ (ep = defaultEp ∧ t = .unit) then .ok (.none (.contract t))
+      else .ok (.some (.contract t (addrFromValue (contractAddress ++ 37 :: ep))))
+  | _ => .stuck
+
+/-- SET_DELEGATE after `pop1`: `delegate.assert_type_equal(option key_hash)`,
+`OperationType.delegation(source=context.get_self_address(), delegate=None if delegate.is_none() else str(delegate.get_some()))` -/
+def execSetDelegate (env : Env) (a : Val) : Res Val :=
+  match a with
+  | .none .keyHash => .ok (.opDelegate env.self none)
+  | .some (.atom .keyHash s) => .ok (.opDelegate env.self (some s))
+  | _ => .stuck
+
+/-- `EMIT %tag t` after `pop1`: `payload.assert_type_equal(event_type)`, `OperationType.event(source=…, event_type, payload, tag)` -/
+def execEmit (env : Env) (tag : List Nat) (t : Ty) (a : Val) : Res Val :=
+  if typeOf a = t then .ok (.opEmit env.self tag t a) else .stuck
+
+/-- TRANSFER_TOKENS after `pop3`: `amount.assert_type_equal(MutezType)`, `isinstance(destination, ContractType)`,
+`parameter.assert_type_equal(destination.args[0])` (no node: no second check), `OperationType.transaction(source=self,
+destination=destination.get_address(), amount=int(amount), entrypoint=destination.get_entrypoint(), value=…, param_type)` -/
+def execTransferTokens (env : Env) (parameter amount destination : Val) : Res Val :=
+  match amount, destination with
+  | .num .mutez m, .contract t s =>
+    if typeOf parameter = t then .ok (.opTransfer env.self (pySplit s).1 (pySplit s).2 m parameter t) else .stuck
+  | _, _ => .stuck
+
 /-- the instructions of extension 2 of the shape `a = stack.pop1(); a.assert_type_…(…); res = …; stack.push(res)`:
 `res` for the popped `a` -/
 def execUn (env : Env) (i : Instr) (a : Val) : Res Val :=
@@ -560,6 +627,11 @@ def execUn (env : Env) (i : Instr) (a : Val) : Res Val :=
   | .BYTES => execBytes a
   | .VOTING_POWER => execVotingPower env a
   | .HASH_KEY => execHashKey env a
+  | .ADDRESS => execAddress a
+  | .IMPLICIT_ACCOUNT => execImplicitAccount a
+  | .CONTRACT t ep => execContract t ep a
+  | .SET_DELEGATE => execSetDelegate env a
+  | .EMIT tag t => execEmit env tag t a
   | _ => .stuck
 
 /-- the instructions of extension 2 -/
@@ -567,6 +639,11 @@ def stepExt (env : Env) (i : Instr) (s : Stack) : Res Stack :=
   match i with
   -- NEVER: `never = stack.pop1(); never.assert_type_equal(NeverType)`; nothing is pushed
   | .NEVER => do let (a, s) ← s.pop1; if typeOf a = .never then pure s else .stuck
+  -- `SELF %entrypoint`: `res_type.from_value(f'{self_address}%{entrypoint}')`, `res_type = contract self_type` where
+  -- `self_type = get_entrypoint_type(context, entrypoint)` is the type the instruction form carries (looked up in the
+  -- parameter section at the driver boundary)
+  | .SELF ep t => pure (s.push (.contract t (addrFromValue (env.self ++ 37 :: ep))))
+  | .TRANSFER_TOKENS => do let (a, b, c, s) ← s.pop3; let r ← execTransferTokens env a b c; pure (s.push r)
   | i => do let (a, s) ← s.pop1; let r ← execUn env i a; pure (s.push r)
 
 /-- further instructions without sub-programs (kept apart from `step` so that either pattern match stays small) -/
